@@ -50,7 +50,19 @@ def main(argv):
         ctx = core.Ctx(prop, tier, seed, mod.LEVEL)
         ctx.assumptions.append("curve back-end executed: %s (pysecp256k1 is not importable in this image)" % backend)
         ctx.assumptions.append("trusted: CPython 3.12, hashlib/OpenSSL (SHA-2, RIPEMD-160, HMAC), unicodedata, /verif/vf/ref")
-        extra = mod.run(ctx)
+        try:
+            extra = mod.run(ctx)
+        except core.HarnessError:
+            raise
+        except Exception as e:
+            # an exception raised INSIDE the package under test on a path the check expects to work (in the parent process)
+            v = core.impl_exception(prop, e)
+            if v is None:
+                raise
+            ctx.close()
+            ctx.violate("run", v)
+            ctx.note("run", 2, 2, {"aborted-by-implementation-exception": 2}, sample={"exception": v["msg"]})
+            extra = {"aborted": v["msg"]}
         return core.finish(ctx, mod, extra)
     except core.HarnessError as e:
         print("HARNESS-ERROR %s: %s" % (prop, e), file=sys.stderr)
